@@ -56,11 +56,12 @@ func FromStream(reg *registry.Registry, inCh <-chan syntax.File) (<-chan []Direc
 				for _, d := range input.Directives {
 					m, err := ParseDirective(reg, d)
 					if err != nil {
+						verif.Emit("ConvertFailed", "path", input.Path)
 						return err
 					}
 					ds = append(ds, m...)
 				}
-				verif.Emit("Converted", "n", len(ds), "syntax", len(input.Directives))
+				verif.Emit("Converted", "n", len(ds), "syntax", len(input.Directives), "path", input.Path)
 				return cpr.Push(ctx, ch, ds)
 			})
 			return nil
